@@ -1,13 +1,18 @@
 package main
 
-// Concurrency observation (thorough tier only; not part of any theorem): the same real pool under concurrent
-// submitters, a list builder and a block/sync driver.  Detects deadlocks (timeout + goroutine dump), panics (recovered
-// per goroutine; `add` itself converts panics into errors, which are counted), incoherent lists and an incoherent
-// pool after quiescence.  Data races are NOT looked for here (known open finding F13 is kept by the lead).
+// Channel C14conc — concurrency OBSERVATION (exploration, not a proof; no Lean model behind it): the real pool of node B
+// on the real two-node chain under concurrent submitters, a list builder and a block driver.  Submitters also hand
+// "foreign twins" (same sender and nonce, different hash) to the proposing node only, so that B's resets must drop
+// leftovers the block does not list (nonce consumed by a foreign transaction, invalidation cascades).
+// Watchdog: no single operation may block longer than 20 s (goroutine dump goes into the replay) => C14:deadlock;
+// panics (recovered per goroutine, and the ones `add` converts into errors) => C14:panic; after quiescence the
+// containers and lookups must be coherent.  Data races are NOT looked for (known open finding F13, kept by the lead).
 
 import (
+	"encoding/json"
 	"fmt"
 	"math/rand"
+	"os"
 	"runtime"
 	"strings"
 	"sync"
@@ -23,8 +28,33 @@ import (
 	"verifharness/internal/hx"
 )
 
+const c14stall = 20 * time.Second
+
+func c14isConcReplay(b []byte) bool {
+	var conc struct {
+		Replay struct {
+			Concurrent bool `json:"concurrent"`
+		} `json:"replay"`
+	}
+	return json.Unmarshal(b, &conc) == nil && conc.Replay.Concurrent
+}
+
+type c14slot struct {
+	name  string
+	what  atomic.Value // string
+	since int64        // unix nano of the running operation's start; 0 = idle
+}
+
+func (s *c14slot) do(what string, f func()) {
+	s.what.Store(what)
+	atomic.StoreInt64(&s.since, time.Now().UnixNano())
+	f()
+	atomic.StoreInt64(&s.since, 0)
+}
+
 func c14concurrent(c *hx.Ctx, dur time.Duration, seed int64) error {
-	cs := &c14case{Cfg: c14cfg{ES: 8, QS: 8, AEL: 6, AQL: 6}, NS: 6}
+	nSub := 6
+	cs := &c14case{Cfg: c14cfg{ES: 16, QS: 16, AEL: 8, AQL: 8}, NS: nSub}
 	for i := 0; i < cs.NS; i++ {
 		cs.Cand = append(cs.Cand, false)
 		cs.Bal = append(cs.Bal, 100000000)
@@ -37,28 +67,35 @@ func c14concurrent(c *hx.Ctx, dur time.Duration, seed int64) error {
 		return err
 	}
 	B, A := w.B, w.A
+	replay := map[string]interface{}{"concurrent": true, "seed": seed, "note": "schedule dependent: a replay re-runs the observation with the same seed, not the same schedule"}
 	var mu sync.Mutex
-	var problems []string
+	var problems [][2]string
 	note := func(sig, f string, a ...interface{}) {
 		mu.Lock()
 		if len(problems) < 5 {
-			problems = append(problems, sig+"|"+fmt.Sprintf(f, a...))
+			problems = append(problems, [2]string{sig, fmt.Sprintf(f, a...)})
 		}
 		mu.Unlock()
 	}
-	var submitted, built, blocks, swallowed int64
+	var submitted, twins, built, blocks, leftovers int64
 	stop := make(chan struct{})
 	var wg sync.WaitGroup
-	spawn := func(name string, f func(r *rand.Rand)) {
+	var slots []*c14slot
+	spawn := func(name string, f func(r *rand.Rand, s *c14slot)) {
+		s := &c14slot{name: name}
+		s.what.Store("")
+		slots = append(slots, s)
 		wg.Add(1)
+		k := int64(len(slots))
 		go func() {
 			defer wg.Done()
 			defer func() {
 				if rec := recover(); rec != nil {
-					note("C14:panic-concurrent", "%s panicked: %v", name, rec)
+					atomic.StoreInt64(&s.since, 0)
+					note("C14:panic", "%s panicked during %v: %v", name, s.what.Load(), rec)
 				}
 			}()
-			f(rand.New(rand.NewSource(seed*131 + int64(len(name)))))
+			f(rand.New(rand.NewSource(seed*131+k)), s)
 		}()
 	}
 	running := func() bool {
@@ -69,42 +106,54 @@ func c14concurrent(c *hx.Ctx, dur time.Duration, seed int64) error {
 			return true
 		}
 	}
-	for i := 0; i < cs.NS; i++ {
+	sign := func(i int, n uint32, amt int64) *types.Transaction {
+		to := w.addrs[(i+1)%cs.NS]
+		tx := &types.Transaction{Type: types.SendTx, AccountNonce: n, Epoch: 0, To: &to, Amount: milliDna(amt), MaxFee: milliDna(10)}
+		stx, _ := types.SignTx(tx, w.keys[i])
+		return stx
+	}
+	for i := 0; i < nSub; i++ {
 		i := i
-		spawn(fmt.Sprintf("submitter-%d", i), func(r *rand.Rand) {
+		spawn(fmt.Sprintf("submitter-%d", i), func(r *rand.Rand, s *c14slot) {
 			for running() {
-				st := B.app.State
-				n := st.GetNonce(w.addrs[i]) + 1 + uint32(r.Intn(5))
-				to := w.addrs[r.Intn(cs.NS)]
-				tx := &types.Transaction{Type: types.SendTx, AccountNonce: n, Epoch: 0, To: &to, Amount: milliDna(int64(1 + r.Intn(9))), MaxFee: milliDna(10)}
-				stx, _ := types.SignTx(tx, w.keys[i])
+				var st uint32
+				s.do("State.GetNonce", func() { st = B.app.State.GetNonce(w.addrs[i]) })
+				n := st + 1 + uint32(r.Intn(4))
+				tx := sign(i, n, int64(1+r.Intn(9)))
 				var e error
-				if r.Intn(3) == 0 {
-					e = B.pool.AddInternalTx(stx)
+				if r.Intn(4) == 0 {
+					s.do("AddInternalTx", func() { e = B.pool.AddInternalTx(tx) })
 				} else {
-					e = B.pool.AddExternalTxs(validation.InboundTx, stx)
+					s.do("AddExternalTxs", func() { e = B.pool.AddExternalTxs(validation.InboundTx, tx) })
 				}
 				if c14class(e) == "panic" {
-					atomic.AddInt64(&swallowed, 1)
-					note("C14:panic-concurrent", "add recovered a panic: %v", e)
+					note("C14:panic", "add recovered a panic: %v", e)
 				}
-				if r.Intn(2) == 0 {
+				switch r.Intn(3) {
+				case 0: // the proposer gets a foreign twin: same sender and nonce, another hash
+					tw := sign(i, n, int64(20+r.Intn(9)))
+					s.do("A.AddExternalTxs", func() { A.pool.AddExternalTxs(validation.InboundTx, tw) })
+					atomic.AddInt64(&twins, 1)
+				case 1: // the proposer gets the same transaction
 					cp := new(types.Transaction)
-					b, _ := stx.ToBytes()
+					b, _ := tx.ToBytes()
 					cp.FromBytes(b)
-					A.pool.AddExternalTxs(validation.InboundTx, cp)
+					s.do("A.AddExternalTxs", func() { A.pool.AddExternalTxs(validation.InboundTx, cp) })
 				}
-				B.pool.GetPendingByAddress(w.addrs[i])
-				B.pool.GetPendingTransaction(false, true, common.MultiShard, true)
-				B.pool.GetTx(stx.Hash())
+				s.do("lookups", func() {
+					B.pool.GetPendingByAddress(w.addrs[i])
+					B.pool.GetPendingTransaction(false, true, common.MultiShard, true)
+					B.pool.GetTx(tx.Hash())
+				})
 				atomic.AddInt64(&submitted, 1)
 				time.Sleep(time.Duration(200+r.Intn(800)) * time.Microsecond)
 			}
 		})
 	}
-	spawn("builder", func(r *rand.Rand) {
+	spawn("builder", func(r *rand.Rand, s *c14slot) {
 		for running() {
-			l := B.pool.BuildBlockTransactions()
+			var l []*types.Transaction
+			s.do("BuildBlockTransactions", func() { l = B.pool.BuildBlockTransactions() })
 			last := map[common.Address]uint32{}
 			seen := map[common.Hash]bool{}
 			gas := uint64(0)
@@ -127,50 +176,85 @@ func c14concurrent(c *hx.Ctx, dur time.Duration, seed int64) error {
 			time.Sleep(time.Millisecond)
 		}
 	})
-	spawn("chain", func(r *rand.Rand) {
+	spawn("chain", func(r *rand.Rand, s *c14slot) {
 		for k := 0; running(); k++ {
 			w.now += 20
 			common.VerifSetTime(time.Unix(w.now, 0))
-			prop := A.chain.ProposeBlock([]byte{})
+			var prop *types.BlockProposal
+			s.do("A.ProposeBlock", func() { prop = A.chain.ProposeBlock([]byte{}) })
 			blk := c14clone(prop.Block)
-			if e := A.chain.AddBlock(prop.Block, nil, collector.NewStatsCollector()); e != nil {
+			var e error
+			s.do("A.AddBlock", func() { e = A.chain.AddBlock(prop.Block, nil, collector.NewStatsCollector()) })
+			if e != nil {
 				note("C14:chain", "A rejects its own block: %v", e)
 				return
 			}
-			syncRound := k%5 == 3
+			syncRound := k%7 == 5
 			if syncRound {
-				B.chain.StartSync()
+				s.do("StartSync", func() { B.chain.StartSync() })
 			}
-			if e := B.chain.AddBlock(blk, nil, collector.NewStatsCollector()); e != nil {
+			s.do("B.AddBlock(ResetTo)", func() { e = B.chain.AddBlock(blk, nil, collector.NewStatsCollector()) })
+			if e != nil {
 				note("C14:chain", "B rejects the block: %v", e)
 				return
 			}
 			if syncRound {
-				time.Sleep(5 * time.Millisecond)
-				B.chain.StopSync()
+				time.Sleep(3 * time.Millisecond)
+				s.do("StopSync", func() { B.chain.StopSync() })
+			}
+			if len(blk.Body.Transactions) > 0 {
+				atomic.AddInt64(&leftovers, 1)
 			}
 			atomic.AddInt64(&blocks, 1)
-			time.Sleep(time.Duration(20+r.Intn(30)) * time.Millisecond)
+			time.Sleep(time.Duration(15+r.Intn(25)) * time.Millisecond)
 		}
 	})
-	time.Sleep(dur)
-	close(stop)
+	// watchdog
+	deadline := time.Now().Add(dur)
+	stopped := false
 	done := make(chan struct{})
-	go func() { wg.Wait(); close(done) }()
-	select {
-	case <-done:
-	case <-time.After(60 * time.Second):
-		buf := make([]byte, 1<<20)
-		n := runtime.Stack(buf, true)
-		dump := string(buf[:n])
-		var keep []string
-		for _, g := range strings.Split(dump, "\n\n") {
-			if strings.Contains(g, "mempool") || strings.Contains(g, "nonce_cache") {
-				keep = append(keep, g)
+	for {
+		time.Sleep(250 * time.Millisecond)
+		if !stopped && time.Now().After(deadline) {
+			close(stop)
+			stopped = true
+			go func() { wg.Wait(); close(done) }()
+		}
+		now := time.Now().UnixNano()
+		var stuck []string
+		for _, s := range slots {
+			if t := atomic.LoadInt64(&s.since); t != 0 && now-t > int64(c14stall) {
+				stuck = append(stuck, fmt.Sprintf("%s in %v for %.0f s", s.name, s.what.Load(), float64(now-t)/1e9))
 			}
 		}
-		c.Fail("C14:deadlock", "drivers did not finish within 60 s after the stop signal; goroutines in the pool:\n"+strings.Join(keep, "\n\n"), map[string]interface{}{"concurrent": true, "seed": seed})
-		return nil
+		if len(stuck) > 0 {
+			buf := make([]byte, 4<<20)
+			n := runtime.Stack(buf, true)
+			var keep []string
+			for _, g := range strings.Split(string(buf[:n]), "\n\n") {
+				if strings.Contains(g, "core/mempool") || strings.Contains(g, "nonce_cache") {
+					if len(g) > 1500 {
+						g = g[:1500]
+					}
+					keep = append(keep, g)
+				}
+			}
+			if len(keep) > 12 {
+				keep = keep[:12]
+			}
+			replay["goroutines"] = keep
+			replay["stuck"] = stuck
+			c.Fail("C14:deadlock", fmt.Sprintf("operations blocked longer than %v: %s (%d submissions, %d blocks so far)", c14stall, strings.Join(stuck, "; "), atomic.LoadInt64(&submitted), atomic.LoadInt64(&blocks)), replay)
+			return nil
+		}
+		if stopped {
+			select {
+			case <-done:
+			default:
+				continue
+			}
+			break
+		}
 	}
 	// quiescent coherence
 	d := B.pool.VerifDump()
@@ -201,15 +285,55 @@ func c14concurrent(c *hx.Ctx, dur time.Duration, seed int64) error {
 			}
 		}
 	}
-	if cnt != len(d.All) {
-		note("C14:lookup-incoherent", "after the concurrent run the hash index has %d entries, the queues %d", len(d.All), cnt)
+	if cnt != len(d.All) || d.Short != len(d.All) {
+		note("C14:lookup-incoherent", "after the concurrent run the hash index has %d entries, the short index %d, the queues %d", len(d.All), d.Short, cnt)
+	}
+	for _, tx := range d.All {
+		if B.pool.GetTx(tx.Hash()) == nil {
+			note("C14:lookup-incoherent", "GetTx misses a transaction of the hash index after the concurrent run")
+		}
 	}
 	for _, p := range problems {
-		i := strings.Index(p, "|")
-		c.Fail(p[:i], p[i+1:], map[string]interface{}{"concurrent": true, "seed": seed, "note": "schedule dependent; rerun ./check C14 --tier thorough"})
+		c.Fail(p[0], p[1], replay)
 	}
 	c.Hit("concurrent:runs")
-	c.Rep.Notes = append(c.Rep.Notes, fmt.Sprintf("concurrency observation (%v, 6 submitters + builder + chain/sync driver): %d submissions, %d builds, %d blocks, %d panics recovered inside add, %d problems; no deadlock",
-		dur, submitted, built, blocks, swallowed, len(problems)))
+	c.Rep.Notes = append(c.Rep.Notes, fmt.Sprintf("concurrency observation (%v, %d submitters + builder + chain/sync driver): %d submissions (%d foreign twins), %d builds, %d blocks (%d with transactions), %d problems; no operation blocked longer than %v",
+		dur, nSub, submitted, twins, built, blocks, leftovers, len(problems), c14stall))
+	c.Sample(map[string]interface{}{"submissions": submitted, "foreign_twins": twins, "builds": built, "blocks": blocks, "blocks_with_txs": leftovers})
 	return nil
+}
+
+func init() {
+	hx.Register("C14conc", func(c *hx.Ctx) error {
+		defer os.RemoveAll("./testdata")
+		defer os.RemoveAll("./testdata2")
+		seed := c.Seed
+		if c.Replay != "" {
+			b, err := os.ReadFile(c.Replay)
+			if err != nil {
+				return err
+			}
+			if !c14isConcReplay(b) {
+				return nil // a replay of the sequential channel (C14)
+			}
+			var conc struct {
+				Replay struct {
+					Seed int64 `json:"seed"`
+				} `json:"replay"`
+			}
+			json.Unmarshal(b, &conc)
+			seed = conc.Replay.Seed
+		}
+		dur := 10 * time.Second
+		if c.Tier == "thorough" {
+			dur = 90 * time.Second
+		}
+		c.Rep.Rule = "OBSERVATION (exploration, not a proof): one real-time run of the real TxPool under 6 concurrent submitters (external/internal, gapped nonces, foreign twins handed to the proposing node only), a list builder and a block/sync driver (really mined blocks, ResetTo, every 7th block inside StartSync/StopSync); watchdog 20 s per operation, panic capture, list clauses on every concurrent build, container coherence after quiescence"
+		if err := c14concurrent(c, dur, seed); err != nil {
+			return err
+		}
+		c.Rep.Evaluations = 1
+		c.Rep.Distinct = 1
+		return nil
+	})
 }
